@@ -214,6 +214,7 @@ type Engine struct {
 	crcExact     int
 	noSlice      bool
 	deadline     time.Time
+	abortMsg     string       // set when an exploration is pointless to continue (see symLoopLimit): every remaining path is cut with it
 	symLoopLimit int          // >0: a loop whose condition is symbolic and not byte-local is cut after this many iterations (message-level items fall back to concrete text lengths)
 	havocLookup  map[int]bool // map objects whose lookups answer nondeterministically (C19 layer 3)
 	lazy         int          // >0: inside a merged sub-exploration: byte-local branch conditions fork without a feasibility query
@@ -672,6 +673,12 @@ func (e *Engine) Run(init *State) []*State {
 			if e.Steps&15 == 0 && !e.deadline.IsZero() && time.Now().After(e.deadline) {
 				s.cut = "item time budget exceeded"
 			}
+			if e.Steps&15 == 0 && memExceeded.Load() && s.cut == "" {
+				s.cut = "memory budget exceeded"
+			}
+			if e.abortMsg != "" && s.cut == "" {
+				s.cut = e.abortMsg
+			}
 			if s.panicd != "" || s.cut != "" || len(s.frames) == 0 || s.cutDone {
 				done = append(done, s)
 				e.Paths++
@@ -1110,6 +1117,7 @@ func (e *Engine) step(s *State) []*State {
 		}
 		if e.symLoopLimit > 0 && !isByteCond(c) && f.visits[f.blk.Index] >= e.symLoopLimit {
 			s.cut = "symbolic-trip-count loop at " + e.site(x.Pos())
+			e.abortMsg = s.cut // the whole item is re-run with concrete lengths: do not explore the other paths
 			return nil
 		}
 		tf, ff := true, true
